@@ -509,10 +509,10 @@ impl WritersHandle {
         #[cfg(feature = "verif_hooks")]
         crate::verif_hooks::point("spec.enter", None).ok();
         let max_level = new_spec.max_level();
-        self.spec
-            .write()
-            .map_err(|_| FlexiLoggerError::Poison)?
-            .update_from(new_spec);
+        // keep the write lock until the global max level is updated as well, so that
+        // concurrent calls cannot pair one call's spec with another call's max level
+        let mut spec_guard = self.spec.write().map_err(|_| FlexiLoggerError::Poison)?;
+        spec_guard.update_from(new_spec);
         #[cfg(feature = "verif_hooks")]
         crate::verif_hooks::point("spec.updated", None).ok();
         self.reconfigure(max_level);
